@@ -1218,6 +1218,9 @@ class MultipartWriter(Payload):
                 payload.headers.pop(CONTENT_LENGTH, None)
             elif size is not None:
                 payload.headers[CONTENT_LENGTH] = str(size)
+            elif isinstance(payload, MultipartWriter):
+                # Parts added since the header was set made its size unknown.
+                payload.headers.pop(CONTENT_LENGTH, None)
         return encoding, te_encoding
 
     def append_json(
